@@ -249,6 +249,16 @@ def gen_case(seed, tier, i):
         probes.append({'m': 'complete', 'l': 999, 'c': 0})
     rng.shuffle(probes)
     probes = probes[:16]
+    # a folder of modules outside the project tree, on the project's search path (Project.search /
+    # complete_search list "modules on sys.path" as their last step)
+    libnames = ['libmod_' + x for x in rng.sample(['alpha', 'beta', 'gamma', 'delta', 'epsilon', 'zeta', 'eta', 'theta'],
+                                                   rng.randint(3, 8))]
+    init += [{'op': 'fs', 'kind': 'write', 'path': '../libs/%s.py' % n, 'content': 'def f_%s():\n    return 1\n' % n,
+              'mt': MT0} for n in libnames]
+    project_ops = [{'op': 'project_search', 'q': 'libmod_', 'complete': True,
+                    'project': {'path': '.', 'added_sys_path': ['../libs']}},
+                   {'op': 'project_search', 'q': rng.choice(['func', 'Klass', 'libmod_' + 'alpha']), 'complete': False,
+                    'all_scopes': rng.random() < 0.5, 'project': {'path': '.', 'added_sys_path': ['../libs']}}]
     nconf = 3 if tier == 'quick' else 6
     configs = [{'hashseed': 0, 'perturb': None, 'gc_auto': False, 'gc_each': False}]
     for j in range(nconf):
@@ -279,6 +289,7 @@ def gen_case(seed, tier, i):
         faults[0]['pos'] = rng.choice(ref_pos)
         faults[0]['frac'] = rng.choice([0.0, 0.0, rng.random()])
     return {'id': 'c16-%d' % i, 'init': init, 'text': text, 'probes': probes, 'configs': configs,
+            'project_ops': project_ops,
             'schedule': sched, 'sched_config': rng.randrange(len(configs)), 'faults': faults,
             'pathed': rng.random() < 0.5}
 
@@ -300,6 +311,9 @@ def base_ops(case, cfg):
             ops.append({'op': 'gc'})
         ops.append({'op': 'probe', 'sid': 'b%d' % i, 'p': p, '_idx': i})
         ops.append({'op': 'drop', 'sid': 'b%d' % i})
+    n = len(case['probes'])
+    for j, po in enumerate(case.get('project_ops') or []):
+        ops.append(dict(po, _idx=n + j))
     return ops
 
 
@@ -337,7 +351,7 @@ def collect(ops, run):
     """idx -> list of (op index, result, fired?)"""
     out = collections.defaultdict(list)
     for j, (op, ev) in enumerate(zip(ops, run.events)):
-        if op['op'] == 'probe':
+        if op['op'] in ('probe', 'project_search'):
             out[op['_idx']].append((j, ev.get('res'), bool(ev.get('fired')), ev.get('reqs')))
     return out
 
@@ -361,7 +375,8 @@ class C16(base.Engine):
 
     def execute(self, case):
         driver.begin_case(case)
-        probes = case['probes']
+        probes = list(case['probes']) + [{'m': 'project_complete_search' if po.get('complete') else 'project_search',
+                                          'q': po['q']} for po in case.get('project_ops') or []]
         stats = {'runs': 0, 'order_sensitive_probes': 0, 'compared': 0, 'faults_fired': 0, 'swallowed': 0,
                  'inconclusive': 0, 'multi_valued_probes': 0, 'failing_probes': 0}
         cfg0 = case['configs'][0]
